@@ -22,10 +22,6 @@ vars == <<kind, prog, phase, mode, outcome>>
 
 Init == /\ kind \in GenKinds /\ prog = <<>> /\ phase = "build" /\ mode = "-" /\ outcome = "-"
 
-CanFollow(k, m1, m2) ==
-  \/ /\ IsContext(m1) /\ (~IsContext(m2) \/ m2.n # m1.n)
-  \/ /\ m1 \in Reduced[k] /\ m2 \in Reduced[k] /\ m2.n # m1.n
-
 Mutate ==
   /\ phase = "build" /\ Len(prog) < Depth
   /\ \E m \in Muts[kind] :
